@@ -417,7 +417,19 @@ func unpackOnce(base string, h *uHeader, g *arena.Gamma, c *uCase, w int, n int6
 	}
 	// dst may be spelled with a trailing slash or a trailing "/." (same directory)
 	dst += []string{"", "/", "/."}[int(n)%3]
-	uerr := p.Unpack(rd, dst)
+	var uerr error
+	panicked := ""
+	func() {
+		defer func() {
+			if r := recover(); r != nil {
+				panicked = fmt.Sprint(r)
+			}
+		}()
+		uerr = p.Unpack(rd, dst)
+	}()
+	if panicked != "" {
+		return &uObs{Hist: c.Hist, St: "panic", Fs: arena.SnapshotList(g.Snapshot(root)), Gamma: g.Seed, Fault: c.Fault, Err: panicked, FaultNotes: []string{}}, ""
+	}
 	obs := &uObs{Hist: c.Hist, St: statusOf(uerr), Fs: arena.SnapshotList(g.Snapshot(root)), Gamma: g.Seed, Fault: c.Fault}
 	if uerr != nil {
 		obs.Err = strings.ReplaceAll(uerr.Error(), root, "")
